@@ -313,14 +313,14 @@ def make_configs(pygam):
 
 def term_programs():
     """name -> (builder of the term expression, width, features needed by terms (incl. by), flattened gam.feature,
-    categorical columns)"""
+    categorical columns, categorical columns of each term)"""
     from pygam.terms import s, f, l, te
     return {
-        'sf': (lambda: s(0, n_splines=6) + f(1), 2, [0, 1], [0, 1], [1]),
-        'auto': (lambda: None, 3, None, [0, 1, 2], []),
-        'te': (lambda: te(0, 2, n_splines=4) + f(1) + l(0), 3, [0, 2, 1, 0], [0, 2, 1, 0], [1]),
-        'by': (lambda: s(0, n_splines=6, by=2) + f(1), 3, [0, 2, 1], [0, 1], [1]),
-        'lf': (lambda: l(1) + f(0), 2, [1, 0], [1, 0], [0]),
+        'sf': (lambda: s(0, n_splines=6) + f(1), 2, [0, 1], [0, 1], [1], [[], [1]]),
+        'auto': (lambda: None, 3, None, [0, 1, 2], [], [[], [], []]),
+        'te': (lambda: te(0, 2, n_splines=4) + f(1) + l(0), 3, [0, 2, 1, 0], [0, 2, 1, 0], [1], [[], [1], []]),
+        'by': (lambda: s(0, n_splines=6, by=2) + f(1), 3, [0, 2, 1], [0, 1], [1], [[], [1]]),
+        'lf': (lambda: l(1) + f(0), 2, [1, 0], [1, 0], [0], [[], [0]]),
     }
 
 
@@ -571,7 +571,7 @@ def corruptions(entry, args, base, prog, cfg, state, rng, full):
                     yield (arg, kind, p, mod(exposure=v2, y=y2))
 
 
-def allowed(entry, arg, kind, state, prog, A=None):
+def allowed(entry, arg, kind, state, prog, A=None, pos=None):
     """the property text, independent of the model: the set of acceptable exception classes"""
     needs_fit = entry not in REFIT
     termfeats = prog[2]
@@ -587,6 +587,12 @@ def allowed(entry, arg, kind, state, prog, A=None):
         verdict = 'must' if needs_fit else 'na'
     else:
         verdict = 'na'
+    if entry == 'partial_dependence' and kind == 'cat_out' and A is not None and pos is not None:
+        # the partial dependence of a term does not depend on the other columns: only the requested term's own
+        # categorical features have to be inside the fitted range (repair c103169 of the tree under test)
+        col = pos % prog[1]
+        if col not in prog[5][A.get('term', 0)]:
+            verdict = 'na'
     if arg == 'sample_at_X' and A is not None and A.get('quantity') == 'coef' and verdict == 'must':
         # sample(quantity='coef') never reads sample_at_X: nothing is computed from the invalid array
         verdict = 'na'
@@ -641,13 +647,34 @@ def build_states(cfg, prog, Xtr, ytr, etr, rng):
     return dict(fitted=g, fresh=mk, failedfit=bad)
 
 
+def pick_training(ctx, cfg, pname, prog):
+    """a training set on which the plain fit of this class / term program succeeds (first of up to 20 seeded draws)"""
+    last = None
+    for t in range(20):
+        rng = ctx.subrng('entry', cfg.name, pname, 'train', t)
+        Xtr, ytr, _, etr = gen_data(rng, 60, prog[1], prog[4], cfg.ykind)
+        try:
+            st = build_states(cfg, prog, Xtr, ytr, None, None)
+            ok = bool(np.isfinite(st['fitted'].coef_).all())
+            if ok and cfg.cls == 'poisson':
+                st = build_states(cfg, prog, Xtr, ytr, etr, None)
+                ok = bool(np.isfinite(st['fitted'].coef_).all())
+            if ok:
+                ctx.count('training draws needed', t + 1)
+                return Xtr, ytr, etr
+        except ValueError as e:
+            last = e
+    raise RuntimeError('no fittable training set for %s / %s: %r' % (cfg.name, pname, last))
+
+
 def fit_descr(prog, Xtr):
     width, feats, catcols = prog[1], prog[3], prog[4]
-    cats = []
-    for c in catcols:
+    def cat(c):
         col = [r[c] for r in Xtr]
-        cats.append('%d~%s~%s' % (c, q2s(f2q(min(col) - 0.5)), q2s(f2q(max(col) + 0.5))))
-    return '%d:%s:%s' % (width, ','.join(map(str, feats)), ';'.join(cats))
+        return '%d~%s~%s' % (c, q2s(f2q(min(col) - 0.5)), q2s(f2q(max(col) + 0.5)))
+    cats = [cat(c) for c in catcols]
+    tcs = '|'.join(';'.join(cat(c) for c in tc) for tc in prog[5])
+    return '%d:%s:%s:%s' % (width, ','.join(map(str, feats)), ';'.join(cats), tcs)
 
 
 def entry_cases(ctx, cfgs, progs, tier, only=None):
@@ -660,8 +687,7 @@ def entry_cases(ctx, cfgs, progs, tier, only=None):
         pn = list(progs) if thorough else [rot[(ci + ctx.seed) % len(rot)]]
         for pname in pn:
             prog = progs[pname]
-            rng = ctx.subrng('entry', cfg.name, pname)
-            Xtr, ytr, wtr, etr = gen_data(rng, 60, prog[1], prog[4], cfg.ykind)
+            Xtr, ytr, etr = pick_training(ctx, cfg, pname, prog)
             E = entries_for(cfg)
             for entry, args in E.items():
                 r1 = ctx.subrng('entry-states', cfg.name, pname, entry)
@@ -813,9 +839,9 @@ def model_line(case, conv, fit_s):
     validated = '0' if state == 'fresh' else '1'
     fit = fit_s if state == 'fitted' else '-'
     coef = '1' if A.get('quantity') == 'coef' else '0'
-    return 'C11 call %s %s %d %s %s %s X=%s y=%s w=%s e=%s sx=%s conv=%d coef=%s' % (
+    return 'C11 call %s %s %d %s %s %s X=%s y=%s w=%s e=%s sx=%s conv=%d coef=%s term=%d' % (
         case['entry'], cfg.link, cfg.levels, tf, validated, fit, enc_mat(A['X']), enc_vec(A.get('y') if A.get('y') is not None else []),
-        enc_vec(A.get('weights')), enc_vec(A.get('exposure')), enc_mat(A.get('sample_at_X')), 1 if conv else 0, coef)
+        enc_vec(A.get('weights')), enc_vec(A.get('exposure')), enc_mat(A.get('sample_at_X')), 1 if conv else 0, coef, A.get('term', 0))
 
 
 def case_sig(case):
@@ -844,6 +870,33 @@ def _entry_worker(idxs):
         c = _CASES[i]
         out.append((i, exec_case(c, cache.get(c, None))))
     return out
+
+
+def run_signatures(ctx):
+    """the data arguments the model attributes to every entry point are those of the Python signatures"""
+    pygam = common.import_pygam()
+    st = 'entry.signature'
+    ctx.stream(st, 'data arguments (X, y, weights, exposure, sample_at_X) in the signature of every entry point of every class vs Entry.args')
+    meth = dict(fit='fit', poisson_fit='fit', predict='predict', poisson_predict='predict', predict_mu='predict_mu', predict_proba='predict_proba',
+                confidence_intervals='confidence_intervals', prediction_intervals='prediction_intervals', partial_dependence='partial_dependence',
+                deviance_residuals='deviance_residuals', loglikelihood='loglikelihood', poisson_loglikelihood='loglikelihood', score='score',
+                logistic_score='score', accuracy='accuracy', gridsearch='gridsearch', poisson_gridsearch='gridsearch', sample='sample',
+                fit_quantile='fit_quantile')
+    items = []
+    for cfg in make_configs(pygam):
+        gam = cfg.mk(None)
+        for entry in entries_for(cfg):
+            items.append((cfg, entry, getattr(gam, meth[entry])))
+    outs = ctx.driver.run(['C11 args %s' % e for _, e, _ in items])
+    for (cfg, entry, fn), out in zip(items, outs):
+        pars = [p for p in inspect.signature(fn).parameters if p in ('X', 'y', 'weights', 'exposure', 'sample_at_X')]
+        if entry == 'accuracy':
+            pars = [p for p in pars if p != 'mu']
+        impl = ','.join(pars)
+        sig = dict(cls=cfg.name, entry=entry)
+        ctx.case(st, sig, nontrivial=True, sample=dict(sig, impl=impl, model=out))
+        if sorted(impl.split(',')) != sorted(out.split(' ')[0].split(',')):
+            ctx.disagree(st, sig, impl, out, 'the entry point takes other data arguments than the model table says')
 
 
 def run_entries(ctx, only=None):
@@ -879,7 +932,7 @@ def run_entries(ctx, only=None):
         sig = case_sig(c)
         model = out.split(' ')[0]
         step = out.split(' ')[1] if ' ' in out else '?'
-        ok_set, verdict = allowed(c['entry'], c['arg'], c['kind'], c['state'], c['prog'], c['A'])
+        ok_set, verdict = allowed(c['entry'], c['arg'], c['kind'], c['state'], c['prog'], c['A'], c['pos'])
         pirls = impl == 'ValueError@pirls'
         if pirls:
             # post-validation numerical failure inside the optimiser: a ValueError for the property, `ok` for the
@@ -1065,6 +1118,10 @@ def run_hostile(ctx, only=None):
         if res == 'other:AssertionError' and gap:
             ctx.count('suspected-defect', 'G3 AssertionError in _initial_estimate: link(y) overflows for tiny valid targets (inverse / inv_squared link)')
             continue
+        if res == 'ok-nonfinite:pred' and cfgs[cname].link in ('log', 'logit'):
+            ctx.count('suspected-defect', 'G6 a fit that did not converge returns finite coef_ whose training predictions overflow in '
+                                          'exp() (NaN / Inf from predict_mu) instead of raising OptimizationError')
+            continue
         X, y, kw = hostile_data(cfgs[cname], n, sc, ctx.subrng('hostile', cname, n, sc, tp, rep))
         res2, _ = _hostile_once(cfgs[cname], tprog[tp], X, y, kw)
         if res2 == res:
@@ -1083,7 +1140,8 @@ def _hostile_once(cfg, mkterms, X, y, kw):
             p = np.asarray(g.predict_mu(np.array(X, dtype=float)), dtype=float)
             if np.isfinite(c).all() and np.isfinite(p).all():
                 return 'ok-finite', ''
-            return 'ok-nonfinite', 'coef finite=%s predictions finite=%s' % (bool(np.isfinite(c).all()), bool(np.isfinite(p).all()))
+            return ('ok-nonfinite:coef' if not np.isfinite(c).all() else 'ok-nonfinite:pred',
+                    'coef finite=%s predictions finite=%s' % (bool(np.isfinite(c).all()), bool(np.isfinite(p).all())))
         except Exception as e:  # noqa
             return exc_class(e) + (':' + type(e).__name__ if isinstance(e, ValueError) else ''), str(e)[:160]
 
@@ -1164,7 +1222,13 @@ def run(ctx):
     ctx.partial.append('entry_rejects_length_partial / entry_rejects_weights_partial: excluded regions (loglikelihood with a length-1 X or y; '
                        'fit_quantile weights when already converged) are genuine gaps of the code, proved as counter-examples in Props/C11.lean')
     ctx.assumptions.append('NumPy raises ValueError for ragged nested lists and for non-broadcastable shapes (observed on every run by the entry.calls stream)')
+    try:
+        import subprocess
+        ctx.extra['repo_head'] = subprocess.run(['git', '-C', common.REPO, 'rev-parse', '--short', 'HEAD'], capture_output=True, text=True).stdout.strip()
+    except Exception:  # noqa
+        pass
     run_utils(ctx)
+    run_signatures(ctx)
     run_entries(ctx)
     run_hostile(ctx)
     run_adjust(ctx)
